@@ -9,39 +9,65 @@ P = {
                   'untouched); failed calls change nothing; over ALL histories of burns / mints / sends from any state: pool growth = '
                   '10^18 x sum of redirected amounts = distribution-account growth (absent other traffic on that account), supply '
                   'changes only by ordinary burns and mints, supply = sum of balances and pool <= distribution balance are preserved. '
+                  'Second model (one denomination, the FeePool as a stored value that every writer reads, updates and writes back): over '
+                  'ALL sequences of redirected burns, MsgFundCommunityPool, community-pool spends, remainders booked by distribution hooks / '
+                  'withdrawals, AllocateTokens, ordinary burns, mints, plain sends and block boundaries, in any interleaving from any state: '
+                  'supply changes only by ordinary burns (and mints); community pool = initial + 10^18 x (sum redirected + sum donated - sum '
+                  'spent) + sum of booked remainders, independent of the order (permutation theorem); the distribution account receives every '
+                  'redirected coin and covers community pool + outstanding rewards; a BurnCoins that memoises the decoded FeePool per block '
+                  'height is refuted (loses a donation, or the remainder a staking hook books between two burns of ONE slash). '
                   'The model is compared on every run with the real application: slashes of bonded / unbonding / redelegated stake '
                   '(StakingKeeper.Slash, double-sign evidence through the evidence BeginBlocker, downtime through the slashing '
                   'BeginBlocker), vetoed / quorum-failing / under-deposited / passing proposals with multi-denomination deposits through '
-                  'the gov EndBlocker, EVM SetBalance burns and mints, direct burns by the other module accounts',
+                  'the gov EndBlocker, EVM SetBalance burns and mints, direct burns by the other module accounts, interleaved at ONE block height and '
+                  'across heights with MsgFundCommunityPool, MsgCommunityPoolSpend (gov authority), reward and commission withdrawals, '
+                  'delegation changes (hook remainders) and the distribution BeginBlocker; after EVERY event supply, community pool, '
+                  'distribution module account and outstanding rewards are compared with an exact expectation',
     'level_note': 'trusted: Coq kernel + vm_compute, std++; the hand-written model (tied to /repo only by the sampled correspondence run). '
                   'Which bank keeper instance the staking and gov keepers hold (app/app.go) is not modelled: it is observed by driving '
                   'the application\'s own StakingKeeper / GovKeeper / SlashingKeeper / EvidenceKeeper. SDK staking slash arithmetic, gov '
                   'tally, bank store and module-account permissions are modelled or observed, not verified; no axioms',
-    'technique': 'Coq proof (per-call exactness + accounting by induction over bank-call histories) + differential correspondence and '
-                 'property oracle on real slash / proposal / burn events',
+    'technique': 'Coq proof (per-call exactness + accounting by induction over bank-call histories and over event sequences around the '
+                 'stored FeePool) + differential correspondence and exact per-event property oracle on real slash / proposal / burn / '
+                 'community-pool events at one height and across heights',
     'drivers': [
         {'name': 'burns', 'n': {'quick': 60, 'thorough': 2000}, 'shrink_field': 'ops', 'batch': 500},
     ],
     'coq_header': 'From HV Require Import Dao.LedgerModel Bank.BurnModel.\nFrom Coq Require Import ZArith NArith List.\nImport ListNotations.',
-    'lists': {'cases': {'type': 'list event', 'check': 'mismatches', 'shard': 8}},
+    'lists': {'cases': {'type': 'hcase', 'check': 'mismatches', 'shard': 8}},
     'search': {'rounds': 4, 'n': 300},
-    'rule': 'a case is a history of 35-60 operations on a forked real app: fund 12 users, set staking/slashing/gov params, create 2-4 '
-            'validators, delegate, then a random mix of delegate / undelegate / redelegate / staking end-block / Slash (fractions 0..1, '
-            'infraction height 0..40 blocks back, reported power exact or arbitrary) / double-sign evidence / downtime / submit-deposit-'
-            'vote-gov-end-block with random burn flags and 1-3 deposit denominations / EVM burn and mint / direct module burns '
-            '(with and without Burner permission, at balance+1); every event with a property demand is one model event; '
-            'non-trivial = at least one event redirected a positive amount; distinct = distinct op lists',
+    'rule': 'a case is an explicit SEQUENCE of 40-95 operations over explicit block heights on a forked real app ("hold": the next '
+            'operation happens at the same height; a fifth of the cases has one operation per height, the others blocks of 2-10 events): fund 12 '
+            'users, set staking/slashing/gov params, create 2-4 validators, delegate, allocate fees (pending rewards with fractional parts), '
+            'then a random mix of delegate / undelegate / redelegate / staking end-block / Slash (fractions 0..1, infraction height 0..40 '
+            'blocks back, reported power exact or arbitrary) / double-sign evidence / downtime / submit-deposit-vote-gov-end-block with '
+            'random burn flags (veto / quorum / prevote) and 1-3 deposit denominations / EVM burn and mint / direct module burns (with and '
+            'without Burner permission, at balance+1) / MsgFundCommunityPool / community-pool spend with the gov authority / delegator '
+            'reward and validator commission withdrawal / distribution BeginBlocker (AllocateTokens); 16% of the steps are a block '
+            '[redirected burn; 1-3 pool writers or an ordinary burn; redirected burn] at one height or a double-sign slash of a validator '
+            'with a fresh unbonding delegation and a redelegation whose destination has pending rewards. After EVERY event: supply, '
+            'community pool and distribution account against the exact expectation (redirected X: supply 0, pool + X x 10^18 + what the '
+            'distribution hooks of the same event booked = coins in - payouts - growth of outstanding rewards, account + X - payouts; '
+            'donation Y: pool and account + Y; spend Z: - Z; ordinary burn: supply - amount, pool and account untouched), and '
+            'distribution account >= community pool + outstanding rewards. Each case is evaluated by both Coq models: the bank view per '
+            'event and the whole history as one event sequence per denomination (final supply, pool, account, outstanding, balances). '
+            'Every case runs in its own range of heights of the process. non-trivial = at least one event redirected a positive amount; '
+            'distinct = distinct op lists',
     'trusted_base': [
         'Coq 8.16.1 kernel incl. vm_compute (no native_compute); std++ 1.8.0 gmap',
         'axioms: none (Print Assumptions: closed under the global context for every theorem of Props/C14.v)',
         'correspondence harness harness/burns.go + vlib/core.py (generator, snapshots, oracle, shrinker)',
         'modelled, not verified: SDK bank SendCoins / BurnCoins / MintCoins, module-account permissions (maccPerms), DecCoins addition; '
         'observed, not modelled: staking Slash / SlashUnbondingDelegation / SlashRedelegation amounts, gov Tally and deposit refunds, '
+        'reward amounts and truncation remainders of x/distribution (enter the models as measured event arguments), '
         'and the keeper wiring of app/app.go',
     ],
     'assumptions': [
         'a failing bank call leaves no state behind (callers abort the transaction or panic; the harness runs each event on a cache context)',
         'during Slash / evidence / downtime handling nothing but BurnCoins moves coins out of the bonded and not-bonded pools; during the gov '
         'EndBlocker the gov module account only refunds depositors or burns (proposals carry no messages in the generated histories)',
+        'during a slash users are credited only by the distribution hooks (reward payouts); what x/distribution books into the community '
+        'pool during an event equals coins received - payouts - growth of the outstanding rewards (its own bookkeeping, SDK 0.47 '
+        'withdrawDelegationRewards / IncrementValidatorPeriod / AfterValidatorRemoved / AllocateTokens)',
     ],
 }
